@@ -1055,8 +1055,10 @@ pub fn child_main(args: &Args) -> ! {
                     "decoder_refused": env_faults.get("decoder_build").copied().unwrap_or(0),
                     "diffs": diffs.iter().take(6).collect::<Vec<_>>(),
                     "ndiffs": diffs.len(),
-                    "errs": nerr,
-                    "changed": changed,
+                    // (how many reads of a damaged compressed cluster still get their bytes and
+                    // how many get the decoder's error depends on how far the real decoder thread
+                    // has come: statistics, kept out of the deterministic record)
+                    "timing_dependent": {"errs": nerr, "changed": changed},
                     "open": d.get("open").map(|l| l.short()),
                     "check": d.get("check").map(|l| l.short()),
                 })
@@ -1067,6 +1069,13 @@ pub fn child_main(args: &Args) -> ! {
         match payload {
             Ok(mut v) => {
                 v["stderr_unusable"] = json!(stderr_was_broken);
+                if mode != Mode::C04 && i % 8 == 5 {
+                    // a failing sector was armed: which read meets it can depend on what the
+                    // background decoder threads have done by then (about one case in 100 000
+                    // differs between two runs). The case is judged like every other; its
+                    // details stay out of the deterministic record.
+                    v = json!({"fired": fired, "timing_dependent": v});
+                }
                 proc::child::end(i, &v.to_string())
             }
             Err(_) => proc::child::end(i, &json!({"fired": fired, "caught_panic": true, "stderr_unusable": stderr_was_broken}).to_string()),
@@ -1329,6 +1338,15 @@ fn judge_case(mode: Mode, profile: &str, rec: &Value, exempt: bool) -> Option<St
 }
 
 /// One case record as the workers print it.
+/// Details that were kept out of the deterministic record are judged like all the others.
+fn merge_timing_dependent(rec: &mut Value) {
+    if let Some(Value::Object(td)) = rec["payload"].as_object_mut().and_then(|p| p.remove("timing_dependent")) {
+        for (k, v) in td {
+            rec["payload"][k] = v;
+        }
+    }
+}
+
 fn case_record(img: &ImageInfo, ii: usize, i: u64, fault: &Fault, outcome: CaseOutcome, profile: &str) -> Value {
     let structure = structure_at(img, fault);
     match outcome {
@@ -1536,6 +1554,7 @@ pub fn parent_main(args: &Args, mode: Mode) -> ! {
             let _ = std::fs::write(format!("{f}.{profile}"), recs.iter().map(|r| r.2.as_str()).collect::<Vec<_>>().join("\n"));
         }
         for mut rec in recs.into_iter().map(|(_, _, line)| serde_json::from_str::<Value>(&line).expect("record parsed before")) {
+            merge_timing_dependent(&mut rec);
             ev.evaluations += 1;
             let kind = rec["kind"].as_str().unwrap_or("?").to_string();
             let fired = rec["payload"]["fired"].as_bool().unwrap_or(true);
@@ -1901,6 +1920,7 @@ pub fn replay_main(args: &Args, mode: Mode, file: &str) -> ! {
         for (i, outcome) in outcomes {
             println!("replay {image} {fault} [{profile}]: {outcome:?}");
             let mut rec = case_record(img, 0, i, &fault_d, outcome, profile);
+            merge_timing_dependent(&mut rec);
             let mut exempt = false;
             if mode == Mode::C04 {
                 let (ex, damaged_pack) = c04_attribution(img, &fault_d);
